@@ -110,6 +110,9 @@ def lopOfJ (j : J) : Option LStep := do
     | "mul" => (j.getInt? "n").map LOp.mul
     | "rmul" => (j.getInt? "n").map LOp.mul
     | "copy" => some .copy
+    | "copy_copy" => some .copy
+    | "list_of" => some .copy
+    | "radd" => vs.map LOp.radd
     | "rebind" => do
       let ps ← j.getArr? "pairs"
       let pairs ← ps.mapM fun (p : J) => match p with
@@ -150,6 +153,10 @@ def dopOfJ (j : J) : Option DStep := do
     | "ior_pairs" => do pure (.update (← pairsOfJ j) [])
     | "get1" => k.map fun x => DOp.getD x .none
     | "copy" => some .copy
+    | "copy_copy" => some .copy
+    | "dict_of" => some .copy
+    | "or" => do pure (.union (← pairsOfJ j) false)
+    | "ror" => do pure (.union (← pairsOfJ j) true)
     | "rebind" => do pure (.rebind (← pairsOfJ j) (← pairsOfJ j "kw"))
     | _ => none
   pure ⟨op, notify⟩
